@@ -54,8 +54,10 @@ def expressible(triples, fmt):
             for x in (s, p, o):
                 if x[0] in ("u", "b") and not gt.xml_ok(x[1]):
                     return False
-            if o[0] == "l" and len(o) > 3 and o[3] in (gt.RDFNS + "XMLLiteral", gt.RDFNS + "HTML"):
-                return False  # parsed as markup, compared as such; outside plain term identity
+            if o[0] == "l" and len(o) > 3 and o[3] == gt.RDFNS + "HTML":
+                return False  # written as markup; outside plain term identity
+            if o[0] == "l" and len(o) > 3 and o[3] == gt.RDFNS + "XMLLiteral" and not (gt.wellformed_xml_fragment(o[1]) and "<" in o[1]):
+                return False  # only well-formed element content is written as rdf:parseType="Literal" and read back as the same term
     if fmt == "json-ld":
         for s, p, o in triples:
             if o[0] == "l" and len(o) > 3 and o[3] == gt.RDFNS + "JSON":
